@@ -2,7 +2,7 @@
    block contents.  Also the list/track/song bookkeeping lemmas shared with TrackIndepP.v (C12). *)
 From Sakura.Model Require Import Base Cursor Length Event Song Token LoopMachine LexCore RunCore.
 From Sakura.Spec Require Import LoopSpec.
-From Sakura.Proofs Require Import LoopP.
+From Sakura.Proofs Require Import LoopP ExtP IdleP.
 Open Scope Z_scope.
 
 (* ------------------------------------------------------------------------------------------------ *)
@@ -204,21 +204,21 @@ Proof. reflexivity. Qed.
 Section Elements.
   Variable ec : list tok -> res song -> res song.
 
-  (* a lettered note outside a chord, no tie pending *)
+  (* a lettered note outside a chord, no tie pending, nothing reserved on the track *)
   Lemma note_plain base flag natural len qlen vel timing oct s :
-    cur_ok s -> s_harmony_flag s = false -> tr_tie_notes (cur_track s) = [] ->
+    cur_ok s -> s_harmony_flag s = false -> tr_tie_notes (cur_track s) = [] -> tr_rsv (cur_track s) = rsv_new ->
     exists s',
       step_song ec (TNote base flag natural len qlen vel timing oct 0) s = Ok s' /\
       tr_timepos (cur_track s') = tr_timepos (cur_track s) + calc_length len (s_timebase s) (tr_length (cur_track s)) /\
       tr_events (cur_track s') = tr_events (cur_track s) ++ [note_event s (TNote base flag natural len qlen vel timing oct 0)] /\
       tr_length (cur_track s') = tr_length (cur_track s) /\
       cur_ok s' /\ s_harmony_flag s' = false /\ tr_tie_notes (cur_track s') = [] /\
-      s_timebase s' = s_timebase s /\ s_cur s' = s_cur s.
+      s_timebase s' = s_timebase s /\ s_cur s' = s_cur s /\ tr_rsv (cur_track s') = rsv_new.
   Proof.
-    intros Hc Hh Ht. cbn [step_song]. unfold exec_note.
+    intros Hc Hh Ht Hi. cbn [step_song]. rewrite (exec_note_idle s _ _ _ _ _ _ _ _ _ Hc Hi). unfold exec_note_plain.
     set (ev := ev_note _ _ _ _ _). set (nl := calc_length len _ _).
     assert (Hev : ev = note_event s (TNote base flag natural len qlen vel timing oct 0)) by reflexivity.
-    unfold emit_note.
+    unfold emit_note_plain.
     set (s1 := upd_cur s (fun t => tr_set_timepos t (tr_timepos t + nl))).
     assert (Hc1 : cur_ok s1) by (apply cur_ok_upd_cur; exact Hc).
     assert (H1 : cur_track s1 = tr_set_timepos (cur_track s) (tr_timepos (cur_track s) + nl))
@@ -228,7 +228,7 @@ Section Elements.
     - change (s_harmony_flag s1) with (s_harmony_flag s). rewrite Hh. rewrite H1.
       cbn [tr_tie_notes tr_set_timepos]. rewrite Ht. cbn [Z.geb Z.compare orb negb].
       eexists. split; [reflexivity|].
-      rewrite cur_track_upd_cur by exact Hc1. rewrite H1. cbn [tr_push_event tr_set_events tr_set_timepos tr_timepos tr_events tr_length tr_tie_notes].
+      rewrite cur_track_upd_cur by exact Hc1. rewrite H1. cbn [tr_push_event tr_set_events tr_set_timepos tr_timepos tr_events tr_length tr_tie_notes tr_rsv].
       rewrite Hev. repeat split; try reflexivity; try assumption.
       apply cur_ok_upd_cur. exact Hc1.
     - set (s2 := s_set_octave_once _ 0).
@@ -239,14 +239,14 @@ Section Elements.
       cbn [tr_tie_notes tr_set_timepos tr_set_octave]. rewrite Ht. cbn [Z.geb Z.compare orb negb].
       eexists. split; [reflexivity|].
       rewrite cur_track_upd_cur by exact Hc2. rewrite H2, H1.
-      cbn [tr_push_event tr_set_events tr_set_timepos tr_set_octave tr_timepos tr_events tr_length tr_tie_notes].
+      cbn [tr_push_event tr_set_events tr_set_timepos tr_set_octave tr_timepos tr_events tr_length tr_tie_notes tr_rsv].
       rewrite Hev. repeat split; try reflexivity; try assumption.
       apply cur_ok_upd_cur. exact Hc2.
   Qed.
 
   (* a numbered note *)
   Lemma note_n_plain no len qlen vel timing s :
-    cur_ok s ->
+    cur_ok s -> tr_rsv (cur_track s) = rsv_new ->
     exists s' e,
       step_song ec (TNoteN no len qlen vel timing 0) s = Ok s' /\
       tr_timepos (cur_track s') = tr_timepos (cur_track s) + calc_length len (s_timebase s) (tr_length (cur_track s)) /\
@@ -255,13 +255,14 @@ Section Elements.
                              (if negb (qlen =? 0) then qlen else tr_qlen (cur_track s)) /\
       tr_length (cur_track s') = tr_length (cur_track s) /\
       cur_ok s' /\ s_harmony_flag s' = s_harmony_flag s /\ tr_tie_notes (cur_track s') = tr_tie_notes (cur_track s) /\
-      s_timebase s' = s_timebase s /\ s_cur s' = s_cur s.
+      s_timebase s' = s_timebase s /\ s_cur s' = s_cur s /\ tr_rsv (cur_track s') = rsv_new.
   Proof.
-    intros Hc. cbn [step_song]. unfold exec_note_n, emit_note. cbn [Z.geb Z.compare].
+    intros Hc Hi. cbn [step_song]. rewrite (exec_note_n_idle s _ _ _ _ _ _ Hc Hi).
+    unfold exec_note_n_plain, emit_note_plain. cbn [Z.geb Z.compare].
     eexists. eexists. split; [reflexivity|].
     rewrite cur_track_upd_cur by exact Hc.
-    cbn [tr_push_event tr_set_events tr_set_timepos tr_timepos tr_events tr_length tr_tie_notes e_v2 ev_note].
-    repeat split; try reflexivity. apply cur_ok_upd_cur. exact Hc.
+    cbn [tr_push_event tr_set_events tr_set_timepos tr_timepos tr_events tr_length tr_tie_notes tr_rsv e_v2 ev_note].
+    repeat split; try reflexivity; try exact Hi. apply cur_ok_upd_cur. exact Hc.
   Qed.
 
   (* a rest *)
@@ -273,11 +274,11 @@ Section Elements.
       tr_events (cur_track s') = tr_events (cur_track s) /\
       tr_length (cur_track s') = tr_length (cur_track s) /\
       cur_ok s' /\ s_harmony_flag s' = s_harmony_flag s /\ tr_tie_notes (cur_track s') = tr_tie_notes (cur_track s) /\
-      s_timebase s' = s_timebase s /\ s_cur s' = s_cur s.
+      s_timebase s' = s_timebase s /\ s_cur s' = s_cur s /\ tr_rsv (cur_track s') = tr_rsv (cur_track s).
   Proof.
     intros Hc. cbn [step_song]. unfold exec_rest. eexists. split; [reflexivity|].
     rewrite cur_track_upd_cur by exact Hc.
-    cbn [tr_set_timepos tr_timepos tr_events tr_length tr_tie_notes].
+    cbn [tr_set_timepos tr_timepos tr_events tr_length tr_tie_notes tr_rsv].
     repeat split; try reflexivity. apply cur_ok_upd_cur. exact Hc.
   Qed.
 End Elements.
@@ -288,8 +289,10 @@ Definition plain_elem (t : tok) : Prop :=
   (exists no qlen vel timing, t = TNoteN no [] qlen vel timing 0) \/
   t = TRest 1 [].
 
-(* what the laws below need of a state: the track exists, no chord is open, no tie is pending *)
-Definition quiet (s : song) : Prop := cur_ok s /\ s_harmony_flag s = false /\ tr_tie_notes (cur_track s) = [].
+(* what the laws below need of a state: the track exists, no chord is open, no tie is pending, and nothing is
+   reserved on the track (no onNote / onCycle / onTime list, no controller reservation, random widths 0) *)
+Definition quiet (s : song) : Prop :=
+  cur_ok s /\ s_harmony_flag s = false /\ tr_tie_notes (cur_track s) = [] /\ tr_rsv (cur_track s) = rsv_new.
 
 Definition share_event (L : Z) (e : event) : Prop := e_type e = NoteOn /\ exists q, e_v2 e = note_len_real L q.
 
@@ -311,20 +314,21 @@ Section Share.
       tr_events (cur_track s') = tr_events (cur_track s) ++ evs /\
       Forall (share_event (tr_length (cur_track s))) evs.
   Proof.
-    intros [Hc [Hh Ht]] [[b [f [n [q [v [tm [o ->]]]]]]] | [[no [q [v [tm ->]]]] | ->]].
-    - destruct (note_plain ec b f n [] q v tm o s Hc Hh Ht) as [s' [E [Htp [Hev [Hl [Hc' [Hh' [Ht' [Htb Hcur]]]]]]]]].
+    intros [Hc [Hh [Ht Hi]]] [[b [f [n [q [v [tm [o ->]]]]]]] | [[no [q [v [tm ->]]]] | ->]].
+    - destruct (note_plain ec b f n [] q v tm o s Hc Hh Ht Hi) as [s' [E [Htp [Hev [Hl [Hc' [Hh' [Ht' [Htb [Hcur Hi']]]]]]]]]].
       exists s', [note_event s (TNote b f n [] q v tm o 0)]. rewrite calc_length_empty in Htp.
       repeat split; try assumption. constructor; [|constructor].
       split; [reflexivity|]. cbn [note_event e_v2 ev_note]. rewrite calc_length_empty. eexists. reflexivity.
-    - destruct (note_n_plain ec no [] q v tm s Hc) as [s' [e [E [Htp [Hev [Hd [Hl [Hc' [Hh' [Ht' [Htb Hcur]]]]]]]]]]].
+    - destruct (note_n_plain ec no [] q v tm s Hc Hi) as [s' [e [E [Htp [Hev [Hd [Hl [Hc' [Hh' [Ht' [Htb [Hcur Hi']]]]]]]]]]]].
       exists s', [e]. rewrite calc_length_empty in Htp, Hd.
       repeat split; try assumption; try congruence. constructor; [|constructor].
       split; [|eexists; exact Hd].
-      cbn [step_song] in E. unfold exec_note_n, emit_note in E. cbn [Z.geb Z.compare] in E. injection E as <-.
+      cbn [step_song] in E. rewrite (exec_note_n_idle s _ _ _ _ _ _ Hc Hi) in E.
+      unfold exec_note_n_plain, emit_note_plain in E. cbn [Z.geb Z.compare] in E. injection E as <-.
       rewrite cur_track_upd_cur in Hev by exact Hc.
       cbn [tr_push_event tr_set_events tr_set_timepos tr_events] in Hev.
       apply app_inv_head in Hev. injection Hev as <-. reflexivity.
-    - destruct (rest_plain ec 1 [] s Hc) as [s' [E [Htp [Hev [Hl [Hc' [Hh' [Ht' [Htb Hcur]]]]]]]]].
+    - destruct (rest_plain ec 1 [] s Hc) as [s' [E [Htp [Hev [Hl [Hc' [Hh' [Ht' [Htb [Hcur Hi']]]]]]]]]].
       exists s', []. rewrite calc_length_empty, Z.mul_1_r in Htp. rewrite app_nil_r.
       repeat split; try assumption; try congruence. constructor.
   Qed.
@@ -370,8 +374,8 @@ Section Share.
     intros Hq HX Hne n D tp.
     assert (Hn : n >? 0 = true) by (destruct X; [congruence|cbn [length] in n; lia]).
     assert (Hq0 : quiet (div_entry n len s)).
-    { destruct Hq as [Hc [Hh Ht]]. unfold quiet, div_entry.
-      rewrite cur_track_upd_cur by exact Hc. repeat split; [apply cur_ok_upd_cur; exact Hc|exact Hh|exact Ht]. }
+    { destruct Hq as [Hc [Hh [Ht Hi]]]. unfold quiet, div_entry.
+      rewrite cur_track_upd_cur by exact Hc. repeat split; [apply cur_ok_upd_cur; exact Hc|exact Hh|exact Ht|exact Hi]. }
     destruct (div_entry_length n len s (proj1 Hq)) as [HL HT].
     assert (Hsh : div_share n len s = Z.quot D n) by (unfold div_share; rewrite Hn; reflexivity).
     split.
@@ -405,18 +409,18 @@ Section Chord.
 
   (* inside an open chord a note is only collected: the track is left exactly as it was *)
   Lemma chord_note_step s evs t :
-    cur_ok s -> s_octave_once s = 0 -> is_chord_note t ->
+    cur_ok s -> s_octave_once s = 0 -> tr_rsv (cur_track s) = rsv_new -> is_chord_note t ->
     step_song ec t (s_set_harmony s true (tr_timepos (cur_track s)) evs)
     = Ok (s_set_harmony s true (tr_timepos (cur_track s)) (evs ++ [note_event s t])).
   Proof.
-    intros Hc Ho [b [f [n [len [q [v [tm [o ->]]]]]]]].
+    intros Hc Ho Hi [b [f [n [len [q [v [tm [o ->]]]]]]]].
     set (tp := tr_timepos (cur_track s)). set (S := s_set_harmony s true tp evs).
-    cbn [step_song]. unfold exec_note.
+    cbn [step_song]. rewrite (exec_note_idle S _ _ _ _ _ _ _ _ _ Hc Hi). unfold exec_note_plain.
     change (cur_track S) with (cur_track s). change (s_timebase S) with (s_timebase s).
     change (note_number S b f n o) with (note_number s b f n o).
     set (ev := ev_note _ _ _ _ _). set (nl := calc_length len _ _).
     change (note_event s (TNote b f n len q v tm o 0)) with ev.
-    unfold emit_note.
+    unfold emit_note_plain.
     change (s_octave_once (upd_cur S (fun t => tr_set_timepos t (tr_timepos t + nl)))) with (s_octave_once s).
     rewrite Ho. cbn [Z.eqb].
     change (s_harmony_flag (upd_cur S (fun t => tr_set_timepos t (tr_timepos t + nl)))) with true. cbv iota.
@@ -430,13 +434,13 @@ Section Chord.
   Qed.
 
   Lemma chord_notes_fold ns : Forall is_chord_note ns -> forall s evs,
-    cur_ok s -> s_octave_once s = 0 ->
+    cur_ok s -> s_octave_once s = 0 -> tr_rsv (cur_track s) = rsv_new ->
     fold_steps ec ns (Ok (s_set_harmony s true (tr_timepos (cur_track s)) evs))
     = Ok (s_set_harmony s true (tr_timepos (cur_track s)) (evs ++ map (note_event s) ns)).
   Proof.
-    induction 1 as [|t ns Ht _ IH]; intros s evs Hc Ho.
+    induction 1 as [|t ns Ht _ IH]; intros s evs Hc Ho Hi.
     - cbn [fold_steps fold_left map]. rewrite app_nil_r. reflexivity.
-    - rewrite fold_steps_cons, (chord_note_step s evs t Hc Ho Ht), (IH s _ Hc Ho).
+    - rewrite fold_steps_cons, (chord_note_step s evs t Hc Ho Hi Ht), (IH s _ Hc Ho Hi).
       cbn [map]. rewrite <- app_assoc. reflexivity.
   Qed.
 
@@ -451,16 +455,17 @@ Section Chord.
 
   Lemma chord_exec ns len q vel s :
     Forall is_chord_note ns -> cur_ok s -> s_harmony_flag s = false -> s_harmony_events s = [] -> s_octave_once s = 0 ->
+    tr_rsv (cur_track s) = rsv_new ->
     fold_steps ec ([THarmonyBegin] ++ ns ++ [THarmonyEnd len q vel]) (Ok s)
     = Ok (s_set_harmony
             (upd_cur s (fun t => tr_set_timepos (tr_set_events t (tr_events t ++ chord_events ns len q vel s))
                                                 (tr_timepos (cur_track s) + calc_length len (s_timebase s) (tr_length (cur_track s)))))
             false (tr_timepos (cur_track s)) []).
   Proof.
-    intros Hns Hc Hf He Ho.
+    intros Hns Hc Hf He Ho Hi.
     change ([THarmonyBegin] ++ ns ++ [THarmonyEnd len q vel]) with (THarmonyBegin :: (ns ++ [THarmonyEnd len q vel])).
     rewrite fold_steps_cons. cbn [step_song]. rewrite He.
-    rewrite fold_steps_app, (chord_notes_fold ns Hns s [] Hc Ho). cbn [app].
+    rewrite fold_steps_app, (chord_notes_fold ns Hns s [] Hc Ho Hi). cbn [app].
     rewrite fold_steps_cons. cbn [fold_steps fold_left step_song]. reflexivity.
   Qed.
 
@@ -490,6 +495,7 @@ Section Chord.
   (* the chord law *)
   Theorem chord_law ns len q vel s :
     Forall is_chord_note ns -> cur_ok s -> s_harmony_flag s = false -> s_harmony_events s = [] -> s_octave_once s = 0 ->
+    tr_rsv (cur_track s) = rsv_new ->
     let trk := cur_track s in
     let note_len := calc_length len (s_timebase s) (tr_length trk) in
     let q' := if q <? 0 then tr_qlen trk else q in
@@ -509,7 +515,7 @@ Section Chord.
       (forall i, i <> s_cur s -> nth i (s_tracks s') (track_new 0 0) = nth i (s_tracks s) (track_new 0 0)) /\
       s_cur s' = s_cur s /\ s_timebase s' = s_timebase s.
   Proof.
-    intros Hns Hc Hf He Ho trk note_len q' Hq.
+    intros Hns Hc Hf He Ho Hi trk note_len q' Hq.
     destruct (chord_events_props ns len q vel s Hq) as [Hlen [Hall [Hty Hkeys]]].
     eexists. exists (chord_events ns len q vel s). split; [apply chord_exec; assumption|].
     set (F := fun t : track => _).
@@ -522,7 +528,7 @@ Section Chord.
       destruct (Hty e He') as [T Ch]. repeat split; assumption. }
     split; [exact Hkeys|]. repeat split; try reflexivity; try assumption.
     - apply (cur_ok_upd_cur s F Hc).
-    - intros i Hi. apply (upd_cur_other s F i Hi).
+    - intros i Hne. apply (upd_cur_other s F i Hne).
   Qed.
 End Chord.
 
@@ -581,6 +587,19 @@ Proof. apply add_log_break_flag. Qed.
 Lemma bf_song_with_ls s ls : s_break_flag (song_with_ls s ls) = s_break_flag s.
 Proof. reflexivity. Qed.
 
+Lemma bf_change_cur_track s i : s_break_flag (change_cur_track s i) = s_break_flag s.
+Proof. unfold change_cur_track, settle_octave_once. destruct (_ =? 0); reflexivity. Qed.
+Lemma exec_play_break_flag ec s args ln s' : keeps_break_flag ec ->
+  exec_play ec s args ln = Ok s' -> s_break_flag s' = s_break_flag s.
+Proof.
+  intros Hec E. apply exec_play_ok in E. destruct E as (Hn & _ & s4 & last & Hp & ->).
+  rewrite bf_change_cur_track. change (s_break_flag s4 = s_break_flag s).
+  apply (play_parts_inv (fun x => s_break_flag x = s_break_flag s) ec ln (tr_timepos (cur_track s))) in Hp; [exact Hp| | | |reflexivity].
+  - intros s0 i _ H0. unfold play_enter. rewrite bf_upd_cur, bf_change_cur_track. exact H0.
+  - intros s2 txt toks ls' s3 H2 _ E3. apply Hec in E3. rewrite E3, bf_song_with_ls. exact H2.
+  - unfold zlen in Hn. lia.
+Qed.
+
 Lemma step_song_break_flag ec : keeps_break_flag ec ->
   forall t s s', step_song ec t s = Ok s' -> s_break_flag s' = s_break_flag s.
 Proof.
@@ -588,8 +607,7 @@ Proof.
   first
   [ solve [intros E; injection E as <-; reflexivity]
   | (* notes *)
-    solve [unfold exec_note, exec_note_n, emit_note;
-           repeat match goal with |- context [if ?b then _ else _] => destruct b end;
+    solve [unfold exec_note, exec_note_n; destr_lets; unfold emit_note; destr_lets;
            try discriminate; intros E; injection E as <-; reflexivity]
   | (* one guard *)
     solve [unfold exec_harmony_end, change_cur_track, settle_octave_once;
@@ -612,7 +630,14 @@ Proof.
            intros E; injection E as <-;
            repeat match goal with |- context [if ?b then _ else _] => destruct b end;
            repeat rewrite ?bf_upd_cur, ?bf_set_time, ?bf_set_play_from, ?bf_runtime_error;
-           reflexivity] ].
+           reflexivity]
+  | (* RPN / NRPN with an argument list *)
+    solve [intros E; injection E as <-;
+           match goal with |- context [exec_rpn_direct ?a ?b ?c] =>
+             destruct (exec_rpn_direct_cases a b c) as [[f ->]|[m ->]] end;
+           [reflexivity|apply bf_runtime_error]]
+  | (* PLAY *)
+    solve [apply exec_play_break_flag; exact Hec] ].
 Qed.
 
 Definition flag_kept (b : Z) (r : res song) : Prop := match r with Ok s => s_break_flag s = b | _ => True end.
